@@ -325,6 +325,43 @@ Section RoundTrip.
       apply Bool.andb_true_iff in Hqi as [Hq1 _]. cbn in Hq1. subst q. reflexivity. }
     rewrite Hfe, (quoted_never_split e _ Hqi Hne2). cbn [map concat app]. rewrite Hfe, H, Hfi. reflexivity.
   Qed.
+
+  (** the same in every mode, pathname expansion enabled, when the pathname oracle gives back
+      quoted text (for the model of Glob this is Pattern/GlobLiteral.v) *)
+  Theorem expand_literal_word_glob w text e mode :
+    word_text w = Some text -> w <> [] ->
+    (forall f, all_quoted f = true -> funquote f = text -> f <> [] -> expand_path glob f = [text]) ->
+    expand_top users glob e w mode = Ok (e, [expected mode text]).
+  Proof.
+    intros Ht Hne Hg.
+    destruct (mbit mode mLiteral) eqn:EL0; [apply expand_literal_word; [exact Ht|exact Hne|left; exact EL0]|].
+    destruct (mbit mode mPattern) eqn:EP0; [apply expand_literal_word; [exact Ht|exact Hne|right; left; exact EP0]|].
+    destruct (mbit mode mArith) eqn:EA0; [apply expand_literal_word; [exact Ht|exact Hne|right; right; left; exact EA0]|].
+    destruct (mbit mode mQuote) eqn:EQ0; [apply expand_literal_word; [exact Ht|exact Hne|right; right; right; left; exact EQ0]|].
+    destruct (opt_bit e Extracted.opt_NoGlob) eqn:EN; [apply expand_literal_word; [exact Ht|exact Hne|right; right; right; right; exact EN]|].
+    unfold expand_top.
+    pose proof (wsize_le w) as Hsz.
+    remember (4 * S (word_size w))%nat as fuel eqn:Ef.
+    destruct fuel as [|fuel]; [lia|]. rewrite eq_expand.
+    set (init := if mbit mode mQuote then [([], true)] else [] : field).
+    destruct (expand_lq_word users w text Ht fuel e mode true [] init ltac:(lia)) as (segs & Hq & Hfu & Hnn & Hex).
+    cbn [app] in Hex.
+    match goal with |- context [Expand.expand_parts users fuel e w mode true ?I] =>
+      assert (HX : Expand.expand_parts users fuel e w mode true I = Ok (e, [init ++ segs]))
+        by (etransitivity; [|exact Hex]; unfold init; destruct (mbit mode mQuote); reflexivity);
+      rewrite HX end.
+    assert (Hqi : all_quoted (init ++ segs) = true).
+    { unfold all_quoted in *. rewrite forallb_app. unfold init. destruct (mbit mode mQuote); cbn; exact Hq. }
+    assert (Hfi : funquote (init ++ segs) = text).
+    { unfold funquote in *. rewrite map_app, concat_app. unfold init. destruct (mbit mode mQuote); cbn; exact Hfu. }
+    unfold expected. rewrite EL0, EP0. cbn [fold_left]. rewrite EA0, EQ0. cbn [orb].
+    assert (Hne2 : init ++ segs <> []).
+    { specialize (Hnn Hne). destruct init; cbn; [exact Hnn|discriminate]. }
+    assert (Hfe : fempty (init ++ segs) = false).
+    { destruct (init ++ segs) as [|[s q] r] eqn:E; [congruence|]. unfold all_quoted in Hqi. cbn in Hqi.
+      apply Bool.andb_true_iff in Hqi as [Hq1 _]. cbn in Hq1. subst q. reflexivity. }
+    rewrite Hfe, (quoted_never_split e _ Hqi Hne2). cbn [map concat app]. rewrite Hfe, EN, (Hg _ Hqi Hfi Hne2). reflexivity.
+  Qed.
 End RoundTrip.
 
 (** * The three styles, end to end: scan the quoted text, expand the word, get the text back *)
